@@ -12,6 +12,8 @@ Decided:
              cancel() notifies waiters exactly once (OutputFuture)
   R-JOBPOP   retry: a job is removed only after its future is resolved/done, under that future's lock, or
              atomically replaced -- the invariant behind the 'Cancel called on orphan' assertion in cancel()
+  R-PROBE    no hasattr/getattr probing of a future the library was handed (a failed proxy future would raise in
+             the delegate callback and the dependent future would never release its waiters; shared with C17)
 Not decided: exactly-once delivery under all interleavings is argued from these + the stdlib's own at-most-once
 transition, not model-checked.
 """
